@@ -237,9 +237,9 @@ def function(fn: ast.FunctionDef, tree: ast.Module, consts: bool = True, aliases
                 if stores(chain.id) > 1 or chain.id == st.targets[0].id:
                     continue
                 text = ast.unparse(v)
-                if any(isinstance(n, (ast.Attribute, ast.Subscript)) and isinstance(n.ctx, (ast.Store, ast.Del)) and ast.unparse(n).startswith(text)
-                       for n in ast.walk(fn)):
-                    continue
+                if any(isinstance(n, (ast.Attribute, ast.Subscript)) and isinstance(n.ctx, (ast.Store, ast.Del))
+                       and (ast.unparse(n).startswith(text) or text.startswith(ast.unparse(n))) for n in ast.walk(fn)):
+                    continue            # the chain (or a prefix of it) is re-bound somewhere in the function
                 name = st.targets[0].id
                 if loads(name, ast.Module(body=fn.body[:i + 1], type_ignores=[])) > 0:
                     continue            # used before / in its own definition
